@@ -127,6 +127,9 @@ impl Model {
         match self.blocks[id].parent {
             Some(p) if self.live.contains(&p) => {
                 self.live.insert(id);
+                // children are kept in arrival (admission) order
+                self.blocks[p].children.retain(|c| *c != id);
+                self.blocks[p].children.push(id);
                 true
             }
             _ => false,
